@@ -111,6 +111,20 @@ pub fn local_fns(inner: Inner, no_std: bool) -> String {
 }
 "#
         .to_string(),
+        Inner::VecU8 => r#"pub mod fbytes {
+    extern crate alloc;
+    use alloc::vec::Vec;
+    use super::CustomErr;
+    pub fn s_sort(mut v: Vec<u8>) -> Vec<u8> { v.sort(); v }
+    pub fn s_take3(mut v: Vec<u8>) -> Vec<u8> { v.truncate(3); v }
+    pub fn s_push0(mut v: Vec<u8>) -> Vec<u8> { v.push(0); v }
+    pub fn p_nonempty(v: &Vec<u8>) -> bool { !v.is_empty() }
+    pub fn p_short(v: &Vec<u8>) -> bool { v.len() <= 3 }
+    pub fn p_utf8(v: &Vec<u8>) -> bool { core::str::from_utf8(v).is_ok() }
+    pub fn v_sum(v: &Vec<u8>) -> Result<(), CustomErr> { if v.len() > 100 { Err(CustomErr { code: 1 }) } else { Ok(()) } }
+}
+"#
+        .to_string(),
         Inner::CowF32 => r#"pub mod fcow {
     extern crate alloc;
     use alloc::borrow::Cow;
@@ -175,7 +189,7 @@ pub fn unit_source(d: &Decl, no_std: bool, extra: &str) -> String {
         // the declaration itself names `Cow` (and `Vec` in some default expressions)
         o.push_str("use alloc::borrow::Cow;\n");
     }
-    if no_std && d.inner == Inner::VecI32 {
+    if no_std && matches!(d.inner, Inner::VecI32 | Inner::VecU8) {
         // only what a no_std user must import to *write* the declaration; no `format!`, `vec!`, `String`
         // in scope, so a generated use of those prelude items does not resolve by accident
         o.push_str("use alloc::vec::Vec;\n");
@@ -880,6 +894,7 @@ pub fn c05_units(seed: u64, thorough: bool) -> Vec<Unit> {
             Inner::VecI32 => ("Vec<i32>", "Vec<i32>", "vec![1, 2]", true),
             Inner::Point => ("Point", "Point", "Point { x: 1, y: 2 }", false),
             Inner::CowF32 => unreachable!("filtered out above"),
+            Inner::VecU8 => ("Vec<u8>", "Vec<u8>", "vec![1, 2]", true),
         };
         let mk = if d.has_validation() { format!("T::try_new({value}).unwrap()") } else { format!("T::new({value})") };
         let decl = d.decl_text();
